@@ -307,6 +307,8 @@ out = []
 def conv(v, kind, path):
     if kind == 'num':
         v = float.fromhex(v) if isinstance(v, str) else float(v)
+        if path in job.get('rows2d', []):      # a per-ray record read as records[-1, :] (one surface row, one ray)
+            return np.array([[v]], dtype=float)
         return v if path in scalars else np.array([v], dtype=float)
     if kind == 'int':
         return int(v)
@@ -446,7 +448,7 @@ def coq_arg(kind, v):
     raise ValueError(kind)
 
 
-def kernel_correspondence(man, cases, tol=None, scalars=(), arrays=(), plain_self=False, chunk=400, shadow=(), pyres=None):
+def kernel_correspondence(man, cases, tol=None, scalars=(), arrays=(), plain_self=False, chunk=400, shadow=(), pyres=None, rows2d=()):
     """cases: list of input tuples (num as float, list as [float]...).  Runs the real Python
     function and k_<name> FOps on each and compares inside Coq.
     Returns dict(n=..., mismatches=[{case, python, ...}], errors=...)."""
@@ -464,7 +466,7 @@ def kernel_correspondence(man, cases, tol=None, scalars=(), arrays=(), plain_sel
             else:
                 ec.append(v)
         enc_cases.append(ec)
-    job = {'manifest': man, 'cases': enc_cases, 'scalars': list(scalars), 'arrays': list(arrays), 'plain_self': plain_self, 'shadow': list(shadow)}
+    job = {'manifest': man, 'cases': enc_cases, 'scalars': list(scalars), 'arrays': list(arrays), 'plain_self': plain_self, 'shadow': list(shadow), 'rows2d': list(rows2d)}
     if pyres is None:
         pyres = run_python(KERNEL_RUNNER, job)
     tol_s = 'same' if tol is None else f'(close {fhex(tol)})'
